@@ -85,6 +85,14 @@ def gen_dir(rng, nbases=None, defect=None):
                           tags=[], basename=base, relpath=fam, family=fam, role='orbital', function_types=[], auxiliaries={},
                           versions=entry_versions)
         info['bases'].append((key, sorted(entry_versions)))
+    # auxiliaries: the first basis names one or two of the others (a name, or a list of names) for a fitting role
+    if not defect and len(info['bases']) >= 2 and rng.random() < 0.6:
+        k0 = info['bases'][0][0]
+        others = [k for k, _ in info['bases'][1:]]
+        role = rng.choice(['jkfit', 'rifit', 'admmfit'])
+        aux = {role: others[0] if len(others) == 1 or rng.random() < 0.5 else list(others)}
+        index[k0]['auxiliaries'] = aux
+        files['%s/%s.metadata.json' % (index[k0]['relpath'], index[k0]['basename'])]['auxiliaries'] = aux
     # two elements whose components carry the same descriptions and, taken together, the same keys - split differently between the
     # components (41: [] + [k], 42: [k] + []): their reference groups differ although descriptions and flattened keys agree
     if not defect and rng.random() < 0.6 and info['bases']:
